@@ -84,12 +84,46 @@ def zernike_to_noll(n, m):
             return j
     raise ValueError('Could not find noll index for (%d,%d)' % n, m)
 
+def _zernike_radial_reduced(n, m, r_sq, cache=None):
+    '''The radial Zernike polynomial divided by r**m, as a polynomial in r_sq = r**2.
+
+    This is the q-recursive method of [Chong2003]_ with the common factor r**m taken out,
+    R_n^m(r) = r**m * S_n^m(r**2). In this form the recurrence contains no division by r**2,
+    so that it is also valid at r = 0.
+    '''
+    if cache is not None:
+        if ('rad_reduced', n, m) in cache:
+            return cache[('rad_reduced', n, m)]
+
+    if n == m:
+        res = 1.0
+    elif (n - m) == 2:
+        res = n * r_sq - (n - 1)
+    else:
+        p = n
+        q = m + 4
+
+        h3 = -4 * (q - 2) * (q - 3) / float((p + q - 2) * (p - q + 4))
+        h2 = h3 * (p + q) * (p - q + 2) / float(4 * (q - 1)) + (q - 2)
+        h1 = q * (q - 1) / 2.0 - q * h2 + h3 * (p + q + 2) * (p - q) / 8.0
+
+        s1 = _zernike_radial_reduced(p, q, r_sq, cache)
+        s2 = _zernike_radial_reduced(n, q - 2, r_sq, cache)
+        res = h1 * r_sq**2 * s1 + (h2 * r_sq + h3) * s2
+
+    if cache is not None:
+        cache[('rad_reduced', n, m)] = res
+
+    return res
+
 def zernike_radial(n, m, r, cache=None):
     '''The radial component of a Zernike polynomial.
 
     We use the q-recursive method, which uses recurrence relations to calculate the radial
     Zernike polynomials without using factorials. A description of the method can be found
-    in [Chong2003]_. Additionally, this function optionally caches results of previous calls.
+    in [Chong2003]_. The recurrence is evaluated for R_n^m(r) / r**m, which avoids the division
+    by r**2 and is therefore also correct at r = 0. Additionally, this function optionally
+    caches results of previous calls.
 
     .. [Chong2003] Chong, C. W., Raveendran, P., & Mukundan, R. (2003). A comparative analysis of algorithms
         for fast computation of Zernike moments. Pattern Recognition, 36(3), 731-742.
@@ -119,23 +153,7 @@ def zernike_radial(n, m, r, cache=None):
         if ('rad', n, m) in cache:
             return cache[('rad', n, m)]
 
-    if n == m:
-        res = r**n
-    elif (n - m) == 2:
-        z1 = zernike_radial(n, n, r, cache)
-        z2 = zernike_radial(n - 2, n - 2, r, cache)
-
-        res = n * z1 - (n - 1) * z2
-    else:
-        p = n
-        q = m + 4
-
-        h3 = -4 * (q - 2) * (q - 3) / float((p + q - 2) * (p - q + 4))
-        h2 = h3 * (p + q) * (p - q + 2) / float(4 * (q - 1)) + (q - 2)
-        h1 = q * (q - 1) / 2.0 - q * h2 + h3 * (p + q + 2) * (p - q) / 8.0
-
-        r2 = zernike_radial(2, 2, r, cache)
-        res = h1 * zernike_radial(p, q, r, cache) + (h2 + h3 / r2) * zernike_radial(n, q - 2, r, cache)
+    res = r**m * _zernike_radial_reduced(n, m, r**2, cache)
 
     if cache is not None:
         cache[('rad', n, m)] = res
